@@ -41,4 +41,6 @@ def run(ctx, rep):
     rep.run(RM.rule_one_ignore_key, ctx, rep, "T12")
     rep.run(RM.rule_base_class_spelling, ctx, rep, "T13")
     rep.run(RM.rule_every_element_kind_is_wrapped_on_every_path, ctx, rep, "T14")
+    # T15: the name tables of the generator are collections (a one-element tuple without its comma is a string: `in` turns into a substring test)
+    rep.run(RM.rule_membership_tables_are_collections, ctx, rep, "T15")
     rep.run(RF.rule_locals_defined, ctx, rep, "U1", packages=("gtwrap/matlab_wrapper",), min_functions=3)
